@@ -189,7 +189,7 @@ theorem scrypt_wrap_tie (P : Prims) {κ : Type} (E : GoTie.NativeEnv P κ) (pw :
 theorem scrypt_wrapWithLabels_tie (P : Prims) {κ : Type} (E : GoTie.NativeEnv P κ) (pw : Bytes) (logN : Nat) (hN : logN < 63) (fk tape : Bytes) :
     ∃ res, Extracted.age_ScryptRecipient_WrapWithLabels (GoTie.tapeRead E.eRand) E.Enc E.K E.Seal ⟨pw, Int.ofNat logN⟩ fk tape = .ok res ∧
       match wrapOne P (.scrypt pw logN) fk tape with
-      | .error () => res.2.2.1 = some E.eRand
+      | .error () => res.1 = [] ∧ res.2.1 = [] ∧ res.2.2.1 = some E.eRand
       | .ok (some (ss, ls), t) => res = (ss.map GoTie.toGoStanza, ls, none, t)
       | .ok (none, _) => False :=
   GoTie.scrypt_wrapWithLabels_tie P E pw logN hN fk tape
